@@ -489,6 +489,10 @@ def explore(unit, max_paths=20000):
         except Infeasible:
             # the siblings forked on this path before it turned out infeasible are still to be explored
             work.extend(ctx.new_branches)
+            if ctx.obligs:
+                # obligations checked before the path died stay: a call-site precondition that is false on the whole path
+                # is assumed after it is checked, which is exactly what makes the path infeasible
+                done.append((ctx, "infeasible"))
             continue
         done.append((ctx, out))
         work.extend(ctx.new_branches)
